@@ -242,6 +242,21 @@ func TestVerifC11(t *testing.T) {
 			}
 		}
 	}
+	// blobs LABELLED as another key type around key material of Ed25519 size (64 and 96 bytes): the label is part of the
+	// blob; a key that does not say Ed25519 is refused whatever its payload looks like
+	if skA, err := crypto.UnmarshalPrivateKey(goodA); err == nil {
+		if raw, err := skA.Raw(); err == nil {
+			for _, payload := range [][]byte{raw, append(append([]byte(nil), raw...), raw[32:]...)} {
+				for _, kt := range []cryptopb.KeyType{cryptopb.KeyType_RSA, cryptopb.KeyType_Secp256k1, cryptopb.KeyType_ECDSA, cryptopb.KeyType(77)} {
+					kt := kt
+					if lb, err := proto.Marshal(&cryptopb.PrivateKey{Type: &kt, Data: payload}); err == nil {
+						refusals = append(refusals, refusal{fmt.Sprintf("mislabelled-%d-account/%dB", int32(kt), len(payload)), lb, goodB},
+							refusal{fmt.Sprintf("mislabelled-%d-proof/%dB", int32(kt), len(payload)), goodA, lb})
+					}
+				}
+			}
+		}
+	}
 	for cut := 1; cut < len(goodA); cut += 7 {
 		refusals = append(refusals, refusal{fmt.Sprintf("truncated-account/%d", cut), goodA[:cut], goodB})
 		refusals = append(refusals, refusal{fmt.Sprintf("truncated-proof/%d", cut), goodA, goodB[:cut]})
